@@ -33,14 +33,22 @@ PARTIAL = {
         "the iteration order of the Python sets is taken from the implementation (parameter of the model); all mesh "
         "theorems hold for every order",
     "floating point":
-        "theorems are at exact reals; rounding is covered only by the correspondence run (tolerance 1e-9*L) and the "
-        "oracle on the real code",
+        "the support/optimality theorems are at exact reals; rounding of the returned points/values is covered only by "
+        "the correspondence run (tolerance 1e-9*L) and the oracle on the real code. TERMINATION of the mesh climb "
+        "(after repair e900ae9) is no longer in this item: it is proved for every scalar type and every arithmetic whose "
+        "`<` is irreflexive and transitive and whose subtraction satisfies `tau < a - b -> b < a` "
+        "(hillClimb_terminates_anyArith / _strictOrder / _floatLike: at most #vertices-1 accepted moves, model fuel "
+        "never hit; nothing assumed about + and *, i.e. about how dot rounds; NaN: every comparison false, no move "
+        "accepted). Not proved: that Lean's opaque `Float`/the hardware satisfies these three IEEE-754 facts (stated as "
+        "hypotheses), and nothing about the QUALITY of the float answer beyond the run-time tolerance",
 }
 ASSUMPTIONS = [
     "iteration order of a Python set of ints (neighbour order inside MeshHillClimbingSupportFunction.connections) is "
     "taken from the implementation and handed to the model; the theorems hold for every order",
-    "exact-real semantics: float rounding is not modelled; model(Float) and code are compared with the property's "
-    "tolerance 1e-9*L (exactly only on lattice inputs where every operation is exact)",
+    "exact-real semantics for the support/optimality statements: float rounding is not modelled; model(Float) and code "
+    "are compared with the property's tolerance 1e-9*L (exactly only on lattice inputs where every operation is exact); "
+    "termination of the mesh climb is proved for any arithmetic under three IEEE-754 facts taken as hypotheses: `<` "
+    "irreflexive, `<` transitive, `tau < a - b -> b < a` for tau >= 0 or NaN",
     "underflow of |d| (|d|^2 below the smallest normal double) is not modelled; the domain has |d| >= 1e-3",
     "np.linalg.norm(v) = sqrt(v.v) and np.dot evaluate the mathematically same expression as the model (BLAS order / "
     "FMA differences are rounding-level)",
@@ -55,7 +63,10 @@ TRUSTED = [
 MANIFEST = dict(
     text=("Lean theorems: for every shape of colliders.py the modelled support function returns a point of the shape's "
           "point set that maximises the projection on d (all sign-boundary branches included), first_vertex/center "
-          "are members, Margin adds m*d/|d|, hill climbing terminates at a local maximum for every start index and "
+          "are members, Margin adds m*d/|d|, hill climbing (after repair e900ae9 of the cycling defect F-mesh-hill-climb-"
+          "cycle: one computed projection per vertex) terminates in ANY arithmetic with a strict `<` and "
+          "`tau < a-b -> b < a` (floating point and NaN included; <= #vertices-1 moves; before/after counterexample pair "
+          "on a noisy arithmetic), at exact reals at a local maximum for every start index and "
           "at the global one on unimodal (convex) meshes (precondition MeshWF and hypothesis Unimodal have decidable "
           "forms wfCheck / unimodalCheck, proved sound and evaluated in Lean on every mesh of the run; __init__ is "
           "proved to produce MeshWF data iff-style under the KeyError precondition); the model is tied to the code by a correspondence harness "
@@ -192,12 +203,41 @@ def mesh_idx_of(obj):
     return int(sf.first_idx) if sf is not None else -1
 
 
+CALL_LIMIT_S = 20    # per-call watchdog: a support call that does not return is a failing input, not a hang
+
+
+class NoReturn(BaseException):
+    """raised by the SIGALRM watchdog inside an implementation call"""
+
+
+def _alarm(signum, frame):
+    raise NoReturn()
+
+
+def watchdog_call(fn, *a):
+    """fn(*a) under a SIGALRM limit of CALL_LIMIT_S seconds (interpreted engine: the alarm interrupts the Python
+    loop; main thread only). Raises NoReturn."""
+    import signal
+    try:
+        old = signal.signal(signal.SIGALRM, _alarm)
+    except ValueError:      # not the main thread: no watchdog
+        return fn(*a)
+    signal.setitimer(signal.ITIMER_REAL, CALL_LIMIT_S)
+    try:
+        return fn(*a)
+    finally:
+        signal.setitimer(signal.ITIMER_REAL, 0)
+        signal.signal(signal.SIGALRM, old)
+
+
 def impl_support(obj, d):
-    """one support query on the real object -> JSON-able result"""
+    """one support query on the real object -> JSON-able result (err "noReturn" after CALL_LIMIT_S seconds)"""
     dd = arr(d)
     try:
         with np.errstate(all="ignore"):
-            p = np.array(obj.support_function(dd), dtype=float)
+            p = np.array(watchdog_call(obj.support_function, dd), dtype=float)
+    except NoReturn:
+        return {"ok": False, "err": "noReturn", "msg": "support_function did not return within %g s" % CALL_LIMIT_S}
     except Exception as e:  # noqa
         return {"ok": False, "err": err_name(e), "msg": str(e)[:120]}
     if np.any(np.isnan(p)):
@@ -1515,7 +1555,7 @@ def build_moved(spec, dirs, alias):
     return obj
 
 
-def oracle_job(spec, dirs, sweep=200, seed=0, notes=None, moved=None):
+def oracle_job(spec, dirs, sweep=200, seed=0, notes=None, moved=None, start=None):
     """Oracle on a whole job: history of queries on ONE object, fresh-object queries, first_vertex, center.
     Returns a list of violations (dicts with function/args-extra/observed/expected/oracle).
     moved: None | "fresh" | "alias" — the object is brought to its pose by update_pose (build_moved)."""
@@ -1527,12 +1567,20 @@ def oracle_job(spec, dirs, sweep=200, seed=0, notes=None, moved=None):
         label += " after update_pose"
     L = feature_L(spec)
     obj = build_moved(spec, dirs, moved == "alias") if moved else build(spec)
+    if start is not None and kind == "mesh":
+        inner_obj(obj)._support_function.first_idx = int(start)   # the cached vertex a query history left behind
     vals = []
     for i, d in enumerate(dirs):
         if not any(d):
             vals.append(None)
             continue
         r = impl_support(obj, d)
+        if not r["ok"] and r.get("err") == "noReturn":
+            out.append({"function": "%s.support_function: no return" % ("MeshGraph" if kind == "mesh" else label),
+                        "at": i, "observed": r, "expected": "a support point (the call must return)",
+                        "oracle": "per-call watchdog (%g s)" % CALL_LIMIT_S})
+            vals += [None] * (len(dirs) - i)
+            break       # the object was interrupted in the middle of a call; do not go on with it
         if not r["ok"]:
             out.append({"function": "%s.support_function" % label, "at": i, "observed": r,
                         "expected": "a support point", "oracle": "no exception / NaN for a well-formed input"})
@@ -1549,6 +1597,11 @@ def oracle_job(spec, dirs, sweep=200, seed=0, notes=None, moved=None):
                 continue
             r = impl_support(build(spec), d)
             tp = REL * L * max(1.0, vnorm(d))
+            if r.get("err") == "noReturn":
+                out.append({"function": "MeshGraph.support_function: no return", "at": i, "observed": r,
+                            "expected": "a support point (the call must return)",
+                            "oracle": "per-call watchdog (%g s)" % CALL_LIMIT_S})
+                continue
             if not r["ok"] or abs(float(np.dot(arr(d), arr(r["p"]))) - vals[i]) > tp:
                 out.append({"function": "MeshGraph.support_function", "at": i,
                             "observed": {"after history": vals[i], "fresh object": r},
@@ -1566,6 +1619,82 @@ def oracle_job(spec, dirs, sweep=200, seed=0, notes=None, moved=None):
                         "expected": "point of the set within %g" % (REL * L),
                         "oracle": "definition-level membership predicate"})
     return out
+
+
+# ------------------------------------------------------------------ regression inputs (fixed finding F-mesh-hill-climb-cycle)
+_W_MESH = {"kind": "mesh", "pose": [[-0.10966894913031311, 0.6324592283517531, -0.7667907446424727, 19.28351920246887], [-0.6628226925221764, 0.5283434976440056, 0.5305838546120218, 4.759683153429734], [0.7407015592492736, 0.5664348797258196, 0.36126545248015485, -28.008247653780774], [0.0, 0.0, 0.0, 1.0]],
+           "verts": [[-3.78512628971234, -16.601875570384927, 16.88597561025981], [-9.607604402191436, -17.408859556673708, 12.501779876495267], [-0.7345686878099724, -13.801944192192568, -21.587406053314755], [-24.40967886124935, 11.66998012168632, 1.4264037689047169], [10.395744034613372, -14.241016995489666, 18.402034053525597], [-23.97498950318238, 11.830048091421386, -3.8468143259886034], [21.494978728017855, 0.7137184386945459, -19.939179490073027], [26.673365097695786, 8.183461355926632, -5.239724659398261]],
+           "tris": [[4, 7, 3], [4, 2, 1], [6, 4, 7], [6, 4, 2], [0, 1, 3], [0, 4, 3], [0, 4, 1], [5, 6, 2], [5, 1, 3], [5, 2, 1], [5, 7, 3], [5, 6, 7]]}
+REGRESSION = [
+    # found by the C09 search: gjk.gjk(Ellipse, MeshGraph) never returned; the hanging support call. Before repair
+    # e900ae9 hill_climb_mesh_extreme went 5 -> 6 -> 2 -> 5 forever around the face orthogonal to d.
+    {"id": "F-mesh-hill-climb-cycle/C09-witness", "spec": _W_MESH, "start": 5,
+     "d": [8.714251772551416, -0.9657313965830795, -2.1248286835733947], "asis_model": None},
+    # same mesh, same face, direction found for the Lean model: here the pre-repair code AND its Float model
+    # (left-to-right dot; numpy's BLAS dot rounds differently, which is why the first witness does not cycle in the
+    # model) both never converge: the driver must answer `err fuel` for C03.climb.asis with any fuel.
+    {"id": "F-mesh-hill-climb-cycle/model-witness", "spec": _W_MESH, "start": 5,
+     "d": [14.85783145216329, -1.6465755974241905, -3.622840752053705], "asis_model": "err fuel"},
+]
+
+
+def regression_search(ctx):
+    """the witnesses of the fixed finding, run FIRST, each support call under the watchdog"""
+    for w in REGRESSION:
+        viol = oracle_job(w["spec"], [w["d"]], 200, 0, None, start=w["start"])
+        ctx.count("search:regression", key="R" + w["id"])
+        for v in viol:
+            ctx.fail(v["function"], {"spec": w["spec"], "dirs": [w["d"]], "sweep_seed": 0, "at": v.get("at"),
+                                     "moved": None, "start": w["start"], "regression": w["id"]},
+                     v["observed"], v["expected"], v["oracle"])
+
+
+def regression_correspondence(ctx):
+    """the witnesses through the Float driver: the repaired model must return an index whose projection agrees with
+    the implementation, the model of the code BEFORE the repair must run out of every fuel on the model witness"""
+    drv = core.Driver("c03-R")
+    plan = []
+    for w in REGRESSION:
+        spec = w["spec"]
+        obj = build(spec)
+        toks = enc_collider(spec, "F", obj)[1:]
+        nv = len(spec["verts"])
+        dt = enc_vec(w["d"], "F")
+        a = drv.add("C03.climb", "F", toks + [str(w["start"]), str(nv)] + dt)
+        b = drv.add("C03.climb.asis", "F", toks + [str(w["start"]), str(nv)] + dt)
+        c = drv.add("C03.climb.asis", "F", toks + [str(w["start"]), "100000"] + dt)
+        obj._support_function.first_idx = w["start"]
+        plan.append((w, a, b, c, impl_support(obj, w["d"])))
+    out = drv.run()
+    for w, a, b, c, ir in plan:
+        ctx.count("R:climb", key="RC" + w["id"])
+        seed = {"spec": w["spec"], "dirs": [w["d"]], "start": w["start"], "regression": w["id"]}
+        ta, tb, tc = (out.get(x, "bad missing") for x in (a, b, c))
+        ctx.branch("climb-regression", "%s: fixed=%s asis(fuel n)=%s asis(fuel 1e5)=%s" % (
+            w["id"].split("/")[1], ta.split()[0], " ".join(tb.split()[:2]), " ".join(tc.split()[:2])))
+        t = ta.split()
+        if len(t) != 4 or t[0] != "ok":
+            ctx.broke("correspondence", "hill_climb_mesh_extreme (regression %s)" % w["id"],
+                      "repaired model: %s" % ta[:80], seed)
+            continue
+        nv = len(w["spec"]["verts"])
+        if int(t[3]) + 1 > nv:
+            ctx.broke("link", "hillClimb_terminates_strictOrder", "model reports %s moves on %d vertices"
+                      % (t[3], nv), seed)
+        if not ir["ok"]:
+            ctx.broke("correspondence", "hill_climb_mesh_extreme (regression %s)" % w["id"],
+                      "implementation: %s, repaired model: %s" % (ir, ta), seed)
+            continue
+        V = arr(w["spec"]["verts"]).reshape(-1, 3)
+        ld = pose_of(w["spec"])[:3, :3].T @ arr(w["d"])
+        dv = abs(float(V[int(t[1])] @ ld) - float(V[ir["idx"]] @ ld))
+        if dv > tol_proj(w["spec"], w["d"]):
+            ctx.broke("correspondence", "hill_climb_mesh_extreme (regression %s)" % w["id"],
+                      "projections differ by %.3g: impl idx %d, model idx %s" % (dv, ir["idx"], t[1]), seed)
+        if w["asis_model"] is not None and not (tb.startswith(w["asis_model"]) and tc.startswith(w["asis_model"])):
+            ctx.broke("link", "hillClimb_asIs_before_fix on the model witness",
+                      "expected `%s` from the model of the code before e900ae9, got %r / %r" % (w["asis_model"], tb, tc),
+                      seed)
 
 
 # ------------------------------------------------------------------ correspondence
@@ -1777,6 +1906,7 @@ def check_unimodal(ctx, job):
 def correspondence(ctx):
     rng = ctx.rng
     ctx.extra.setdefault("ties", 0)
+    regression_correspondence(ctx)
     chunk = 500
     for stream, n in (("L", ctx.budget(700, 10000)), ("G", ctx.budget(700, 10000))):
         run = Runner(ctx, stream)
@@ -1863,6 +1993,7 @@ def aux_oracle(seed):
 
 def search(ctx):
     rng = ctx.rng
+    regression_search(ctx)
     n = ctx.budget(2500, 40000) * (3 if ctx.extra.get("search_boost") else 1)
     sweep = 200
     kinds = BASE_KINDS + ["mesh", "mesh", "cone", "cylinder", "capsule"]
@@ -1912,25 +2043,25 @@ def replay(ctx, payload):
     cases, aux = [], []
     args = payload.get("args") or {}
     if isinstance(args, dict) and "spec" in args:
-        cases.append((args["spec"], args["dirs"], args.get("sweep_seed", 0), args.get("moved")))
+        cases.append((args["spec"], args["dirs"], args.get("sweep_seed", 0), args.get("moved"), args.get("start")))
     for o in payload.get("others", []) or []:
         a = o.get("args") or {}
         if "spec" in a:
-            cases.append((a["spec"], a["dirs"], a.get("sweep_seed", 0), a.get("moved")))
+            cases.append((a["spec"], a["dirs"], a.get("sweep_seed", 0), a.get("moved"), a.get("start")))
     if not cases:
         for b in payload.get("broken", []) or []:
             si = b.get("seed_input")
             if isinstance(si, dict) and "spec" in si:
-                cases.append((si["spec"], si["dirs"], 0, None))
+                cases.append((si["spec"], si["dirs"], 0, None, si.get("start")))
             elif isinstance(si, dict) and "fn" in si:
                 aux.append(si)
     if not cases and not aux:
         print("replay file names no input:", payload.get("broken"))
         return False
     ok = True
-    for spec, dirs, seed, moved in cases:
+    for spec, dirs, seed, moved, start in cases:
         try:
-            viol = oracle_job(spec, [[float(x) for x in d] for d in dirs], 400, seed, moved=moved)
+            viol = oracle_job(spec, [[float(x) for x in d] for d in dirs], 400, seed, moved=moved, start=start)
         except Exception as e:  # noqa
             print("FAIL cannot evaluate %s: %r" % (spec.get("kind"), e))
             ok = False
